@@ -64,7 +64,16 @@ CLAIMED["C12"] = dict(
     text="The property's second sentence, for every schedule and buffer size: at every try_join_all the per-element future addresses only the element of an iteration over pairwise distinct peers; try_join / try_join! branches are direction-disjoint; outside joins each channel operation is awaited before the next is created; every label has a sender and a receiver and both roles run it after the same earlier labels; the pairwise OT sessions run in mirrored order chosen by an order comparison of party indices. Deadlock-freedom/termination with the correct result additionally needs equal chunk counts and a fair Channel (not decided).",
     note="Trusted: channels are per-pair FIFO; distinctness of p_out is enforced by validate() (C18).",
     ref="DESIGN.md §3 R8, §4 C12")
-NA = {}
+CLAIMED["C01"] = dict(
+    technique="sibling agreement of the instruction walkers (per-Op stream consumption counted on the CFG), batch-size provenance and flush-idiom rules, literal-party-index rule (rustc MIR)",
+    text="Necessary conditions for all parties staying in step for every circuit, role assignment and batch count: the four loops over circ.insts consume the preprocessing streams identically per Op variant (random-share stream exactly once for Input/And, AND-share/table-share/garbled-gate streams only for And); batch-size methods read only num_inputs/num_and_ops, every flush comparison is `len >= bound` with a bound from these methods and every chunk_size_iter/chunks argument comes from them; no literal is used as a party index. Functional correctness of garbling/evaluation is value-level and not decided.",
+    note="Trusted: rustc MIR; garble_lang Op variant order. Value-level correctness (XOR/AES/AEAD algebra) needs execution or proof and is declined.",
+    ref="DESIGN.md §4 C01")
+NA = {
+    "C10": "algebraic identity between runtime values held by different parties (MAC = key xor bit*Delta, AND-triple relation) for every index of every batch: no clause is a shape of the code; needs execution or a symbolic proof of the OT/XOR arithmetic (different technique family). The structural fragments (MAC checks exist and are fail-closed) are decided under C04.",
+    "C11": "value equality (x_b = x_0 xor b*delta) plus length arithmetic across two files (next_multiple_of(8), +128+SSP, byte/bit conversion, 128-row transpose): deciding the 'stay in step' clause needs integer reasoning through helper functions (symbolic execution), not static shape; declined rather than approximated by expression-text comparison.",
+    "C20": "numerical equality with mathematical definitions (bit-matrix transpose, carry-less multiplication, AES-based hashes and counter-mode keystream) over all inputs including SIMD intrinsics; a dependence check (e.g. 'the tweak reaches the output') would be a proxy far weaker than the statement and is not registered.",
+}
 
 def main():
     props = [json.loads(l) for l in open(os.path.join(V, "properties.jsonl"))]
